@@ -8,6 +8,7 @@
 import Proofs.C09_Lemmas
 import Proofs.C09_Units
 import Proofs.C09_Literal
+import Proofs.C09_Rpow
 import Atomman.Generated.UnitTable
 import Atomman.Generated.LammpsStyle
 import Mathlib.Tactic.Ring
@@ -15,6 +16,8 @@ import Mathlib.Tactic.FieldSimp
 import Mathlib.Tactic.Linarith
 import Mathlib.Algebra.Order.Field.Basic
 import Mathlib.Algebra.Field.Rat
+import Mathlib.Data.Rat.Cast.CharZero
+import Mathlib.Analysis.SpecialFunctions.Pow.Real
 
 namespace Atomman.C09
 open Atomman.Gen
@@ -631,6 +634,416 @@ theorem session_conversion_invariant (toInt? : K → Option Int) (tab : List Uni
 
 end session
 
+/-! ### rational exponents (`Pa*m^0.5`, `MPa*m^(3/2)`, `s^-1.5`): the parameter `rpow` with the laws `RpowLaws` -/
+
+section rpow
+variable {F : Type} [Field F] [LinearOrder F] [IsStrictOrderedRing F]
+variable {rpow : F → Rat → F}
+
+/-- one scaled value with rational dimension: `w = v · m^a kg^b s^c C^d F^e`. -/
+def ScaledByR (rpow : F → Rat → F) (sc : Scales F) (vd : F × Q5) (w : F) : Prop := w = vd.1 * factorR rpow sc vd.2
+
+theorem rat_of_den_one {q : Rat} (h : q.den = 1) : q = (q.num : Rat) := (Rat.den_eq_one_iff q).mp h |>.symm
+
+theorem powR_scale (L : RpowLaws rpow) {sc : Scales F} (h : sc.Pos) (v : F) (d : Q5) (q : Rat) (r : F)
+    (hr : powR rpow v q = some r) :
+    powR rpow (v * factorR rpow sc d) q = some (r * factorR rpow sc (Q5.smul q d)) := by
+  have hf := factorR_pos L h d
+  have hf0 : factorR rpow sc d ≠ 0 := ne_of_gt hf
+  unfold powR at hr ⊢
+  by_cases hden : q.den = 1
+  · simp only [hden, if_true] at hr ⊢
+    split at hr
+    · cases hr
+    · rename_i hne
+      simp only [Option.some.injEq] at hr
+      subst hr
+      have : ¬ (v * factorR rpow sc d = 0 ∧ q.num < 0) := by
+        rintro ⟨h0, hn⟩
+        exact hne ⟨(mul_eq_zero.mp h0).resolve_right hf0, hn⟩
+      rw [if_neg this]
+      congr 1
+      rw [powInt_eq, powInt_eq, mul_zpow, factorR_zpow L h]
+      congr 2
+      conv_rhs => rw [rat_of_den_one hden]
+  · simp only [hden, if_false] at hr ⊢
+    by_cases hv : 0 < v
+    · simp only [hv, if_true, Option.some.injEq] at hr
+      subst hr
+      rw [if_pos (mul_pos hv hf), L.mul _ _ hv hf, factorR_rpow L h]
+    · simp only [hv, if_false] at hr
+      split at hr
+      · rename_i hz
+        simp only [Option.some.injEq] at hr
+        subst hr
+        have hvf : v * factorR rpow sc d = 0 := by rw [hz.1, zero_mul]
+        rw [hvf, if_neg (lt_irrefl 0), if_pos ⟨rfl, hz.2⟩, zero_mul]
+      · cases hr
+
+theorem track_num_rel_r (toRat? : F → Option Rat) (L : RpowLaws rpow) {sc : Scales F} (h : sc.Pos) :
+    AlgRel Lift.fwd (ScaledByR rpow sc) (trackAlgR toRat? rpow) (numAlgR toRat? rpow) where
+  mul := by
+    rintro ⟨a, da⟩ ⟨a', da'⟩ b b' hab hab' r hr
+    simp only [ScaledByR] at hab hab'
+    simp only [trackAlgR, Option.some.injEq] at hr
+    subst hr
+    refine ⟨_, rfl, ?_⟩
+    simp only [ScaledByR, hab, hab', factorR_add L h]; ring
+  div := by
+    rintro ⟨a, da⟩ ⟨a', da'⟩ b b' hab hab' r hr
+    simp only [ScaledByR] at hab hab'
+    simp only [trackAlgR] at hr
+    split at hr
+    · cases hr
+    · rename_i hne
+      simp only [Option.some.injEq] at hr
+      subst hr
+      have hf : factorR rpow sc da' ≠ 0 := ne_of_gt (factorR_pos L h da')
+      have hb' : b' ≠ 0 := by rw [hab']; exact mul_ne_zero hne hf
+      refine ⟨b / b', by simp [numAlgR, hb'], ?_⟩
+      simp only [ScaledByR, hab, hab', factorR_sub L h]
+      field_simp
+  pow := by
+    rintro ⟨a, da⟩ ⟨a', da'⟩ b b' hab hab' r hr
+    simp only [ScaledByR] at hab hab'
+    simp only [trackAlgR] at hr
+    cases hn : toRat? a' with
+    | none => simp [hn] at hr
+    | some q =>
+      simp only [hn] at hr
+      split at hr
+      · rename_i hz
+        have hb' : b' = a' := by rw [hab', hz, factorR_zero L h]; simp
+        cases hp : powR rpow a q with
+        | none => simp [hp] at hr
+        | some v =>
+          simp only [hp, Option.map_some, Option.some.injEq] at hr
+          subst hr
+          refine ⟨v * factorR rpow sc (Q5.smul q da), ?_, rfl⟩
+          simp only [numAlgR, hb', hn, hab]
+          exact powR_scale L h a da q v hp
+      · cases hr
+  num := by
+    intro m e r hr
+    simp only [trackAlgR, Option.some.injEq] at hr
+    subst hr
+    exact ⟨_, rfl, by simp [ScaledByR, factorR_zero L h]⟩
+
+theorem env_track_rel_r (L : RpowLaws rpow) (tab : List UnitEntry) {sc : Scales F} (h : sc.Pos) (n : List Char) :
+    Lift.fwd.rel (ScaledByR rpow sc) (envTrackedQ tab n) (envOf tab sc n) := by
+  intro r hr
+  simp only [envTrackedQ, envOf] at hr ⊢
+  cases hl : lookup tab n with
+  | none => simp [hl] at hr
+  | some e =>
+    simp only [hl, Option.map_some, Option.some.injEq] at hr ⊢
+    subst hr
+    exact ⟨_, rfl, by simp only [ScaledByR, factorR_toQ L h]⟩
+
+
+/-- **dimension homomorphism with rational exponents** (every string — `Pa*m^0.5`, `MPa*m^(3/2)`, `s^-1.5`, nested):
+    if an expression evaluates to `(v, d)` under SI with rational dimension tracking, then under any positive
+    base-unit scalings it evaluates to `v · m^d₁ kg^d₂ s^d₃ C^d₄ K^d₅`; `rpow` any function with the three laws. -/
+theorem eval_dimension_hom_rpow (toRat? : F → Option Rat) (L : RpowLaws rpow) (tab : List UnitEntry)
+    (sc : Scales F) (hsc : sc.Pos) (s : List Char) (v : F) (d : Q5)
+    (h : parse (trackAlgR toRat? rpow) (envTrackedQ tab) s = some (v, d)) :
+    parse (numAlgR toRat? rpow) (envOf tab sc) s = some (v * factorR rpow sc d) := by
+  obtain ⟨w, hw, hr⟩ := parse_rel (L := Lift.fwd) (track_num_rel_r toRat? L hsc) (env_track_rel_r L tab hsc) s (v, d) h
+  rw [hw, hr]
+
+/-- the same on expression trees. -/
+theorem eval_dimension_hom_ast_rpow (toRat? : F → Option Rat) (L : RpowLaws rpow) (tab : List UnitEntry)
+    (sc : Scales F) (hsc : sc.Pos) (e : Expr) (v : F) (d : Q5)
+    (h : evalAst (trackAlgR toRat? rpow) (envTrackedQ tab) e = some (v, d)) :
+    evalAst (numAlgR toRat? rpow) (envOf tab sc) e = some (v * factorR rpow sc d) := by
+  obtain ⟨w, hw, hr⟩ := evalAst_rel (L := Lift.fwd) (track_num_rel_r toRat? L hsc) (env_track_rel_r L tab hsc) e (v, d) h
+  rw [hw, hr]
+
+/-- **working-unit independence with rational exponents**: `x [s1]` in `[s2]`, both of the same (rational)
+    dimension, is `x · v1 / v2` whatever the positive base-unit scalings are (1 m^1.5 = 1000 cm^1.5 everywhere). -/
+theorem same_dim_ratio_invariant_rpow (toRat? : F → Option Rat) (L : RpowLaws rpow) (tab : List UnitEntry)
+    (s1 s2 : List Char) (v1 v2 : F) (d : Q5)
+    (h1 : parse (trackAlgR toRat? rpow) (envTrackedQ tab) s1 = some (v1, d))
+    (h2 : parse (trackAlgR toRat? rpow) (envTrackedQ tab) s2 = some (v2, d)) (hv2 : v2 ≠ 0)
+    (sc : Scales F) (hsc : sc.Pos) (x : List F) :
+    ∃ f1 f2, parse (numAlgR toRat? rpow) (envOf tab sc) s1 = some f1
+      ∧ parse (numAlgR toRat? rpow) (envOf tab sc) s2 = some f2 ∧ f2 ≠ 0
+      ∧ getInUnits (setInUnits x f1) f2 = x.map (fun t => t * v1 / v2) := by
+  have hf : factorR rpow sc d ≠ 0 := ne_of_gt (factorR_pos L hsc d)
+  refine ⟨_, _, eval_dimension_hom_rpow toRat? L tab sc hsc s1 v1 d h1,
+    eval_dimension_hom_rpow toRat? L tab sc hsc s2 v2 d h2, mul_ne_zero hv2 hf, ?_⟩
+  simp only [getInUnits, setInUnits, List.map_map]
+  apply List.map_congr_left
+  intro t _
+  simp only [Function.comp]
+  field_simp
+
+/-- … and the round trip through a parsed expression with rational exponents. -/
+theorem set_get_inverse_parse_rpow (toRat? : F → Option Rat) (env : List Char → Option F) (u : Option (List Char))
+    (f : F) (hu : parseUnits (numAlgR toRat? rpow) env u = some f) (hf : f ≠ 0) (vals : List F) :
+    (parseUnits (numAlgR toRat? rpow) env u).map (getInUnits (setInUnits vals f)) = some vals := by
+  rw [hu]; simp [set_get_inverse vals f hf]
+
+/-! #### the rational algebras extend the integer ones -/
+
+theorem powR_intCast (a : F) (n : Int) :
+    powR rpow a (n : Rat) = (if a = 0 ∧ n < 0 then none else some (powInt a n)) := by
+  unfold powR
+  rw [if_pos (Rat.den_intCast n)]
+  by_cases h : a = 0 ∧ n < 0
+  · rw [if_pos h, if_pos (by simpa using h)]
+  · rw [if_neg h, if_neg (by simpa using h), Rat.num_intCast]
+
+theorem numAlgR_extends (toInt? : F → Option Int) (toRat? : F → Option Rat)
+    (hc : ∀ x n, toInt? x = some n → toRat? x = some (n : Rat)) :
+    AlgRel Lift.fwd (fun a b : F => a = b) (numAlg toInt?) (numAlgR toRat? rpow) where
+  mul := by
+    rintro a a' _ _ rfl rfl r hr
+    exact ⟨r, by simpa [numAlg, numAlgR] using hr, rfl⟩
+  div := by
+    rintro a a' _ _ rfl rfl r hr
+    exact ⟨r, by simpa [numAlg, numAlgR] using hr, rfl⟩
+  pow := by
+    rintro a a' _ _ rfl rfl r hr
+    simp only [numAlg] at hr
+    cases hn : toInt? a' with
+    | none => simp [hn] at hr
+    | some n =>
+      simp only [hn] at hr
+      refine ⟨r, ?_, rfl⟩
+      simp only [numAlgR, hc _ _ hn, powR_intCast]
+      exact hr
+  num := by
+    intro m e r hr
+    exact ⟨r, by simpa [numAlg, numAlgR] using hr, rfl⟩
+
+/-- **conservative extension**: whatever the integer-exponent algebra evaluates, the rational-exponent algebra
+    evaluates to the same number (no law of `rpow` is used: integer powers never reach it) — so every theorem about
+    `numAlg` speaks about the algebra the driver runs. -/
+theorem parse_rpow_extends (toInt? : F → Option Int) (toRat? : F → Option Rat)
+    (hc : ∀ x n, toInt? x = some n → toRat? x = some (n : Rat)) (env : List Char → Option F) (s : List Char) (v : F)
+    (h : parse (numAlg toInt?) env s = some v) : parse (numAlgR toRat? rpow) env s = some v := by
+  obtain ⟨w, hw, hr⟩ := parse_rel (L := Lift.fwd) (numAlgR_extends (rpow := rpow) toInt? toRat? hc)
+    (env1 := env) (env2 := env) (fun n r hr => ⟨r, hr, rfl⟩) s v h
+  rw [hw, ← hr]
+
+/-! #### the rational dimension analysis is sound for the tracked evaluation -/
+
+def QDimSound (dv : QDimVal) (vd : F × Q5) : Prop :=
+  dv.dim = vd.2 ∧ ∀ q, dv.qval = some q → vd.1 = (q : F)
+
+theorem litVal_cast (m e : Int) : ((litVal m e : Rat) : F) = litVal m e := by
+  simp only [litVal, powInt_eq]
+  push_cast
+  rfl
+
+theorem qdim_track_rel (toRat? : F → Option Rat) (hR : ∀ x q, toRat? x = some q → x = (q : F)) :
+    AlgRel Lift.both (QDimSound (F := F)) qdimAlg (trackAlgR toRat? rpow) where
+  mul := by
+    rintro a a' ⟨b, db⟩ ⟨b', db'⟩ ⟨h1, h2⟩ ⟨h1', h2'⟩ r r' hr hr'
+    simp only [qdimAlg, trackAlgR, Option.some.injEq] at hr hr'
+    subst hr; subst hr'
+    refine ⟨by simp only at h1 h1'; simp [h1, h1'], ?_⟩
+    intro n hn
+    cases hx : a.qval with
+    | none => simp [hx, bind2] at hn
+    | some x =>
+      cases hy : a'.qval with
+      | none => simp [hx, hy, bind2] at hn
+      | some y =>
+        simp only [hx, hy, bind2, Option.some.injEq] at hn
+        subst hn
+        simp only at h2 h2' ⊢
+        rw [h2 x hx, h2' y hy]; push_cast; rfl
+  div := by
+    rintro a a' ⟨b, db⟩ ⟨b', db'⟩ ⟨h1, h2⟩ ⟨h1', h2'⟩ r r' hr hr'
+    simp only [qdimAlg, trackAlgR, Option.some.injEq] at hr hr'
+    split at hr'
+    · cases hr'
+    · simp only [Option.some.injEq] at hr'
+      subst hr; subst hr'
+      refine ⟨by simp only at h1 h1'; simp [h1, h1'], ?_⟩
+      intro n hn
+      cases hx : a.qval with
+      | none => simp [hx, bind2] at hn
+      | some x =>
+        cases hy : a'.qval with
+        | none => simp [hx, hy, bind2] at hn
+        | some y =>
+          simp only [hx, hy, bind2] at hn
+          split at hn
+          · cases hn
+          · simp only [Option.some.injEq] at hn
+            subst hn
+            simp only at h2 h2' ⊢
+            rw [h2 x hx, h2' y hy]; push_cast; rfl
+  pow := by
+    rintro a a' ⟨b, db⟩ ⟨b', db'⟩ ⟨h1, h2⟩ ⟨h1', h2'⟩ r r' hr hr'
+    simp only [qdimAlg, trackAlgR] at hr hr'
+    cases hx : a'.qval with
+    | none => simp [hx] at hr
+    | some q =>
+      simp only [hx] at hr
+      split at hr
+      · simp only [Option.some.injEq] at hr
+        cases hn' : toRat? b' with
+        | none => simp [hn'] at hr'
+        | some q' =>
+          simp only [hn'] at hr'
+          split at hr'
+          · have e1 : b' = (q : F) := h2' q hx
+            have e2 : b' = (q' : F) := hR b' q' hn'
+            have : q = q' := Rat.cast_injective (α := F) (e1.symm.trans e2)
+            subst this
+            cases hp : powR rpow b q with
+            | none => simp [hp] at hr'
+            | some v =>
+              simp only [hp, Option.map_some, Option.some.injEq] at hr'
+              subst hr; subst hr'
+              refine ⟨by simp only at h1; simp [h1], ?_⟩
+              intro k hk
+              simp only at hk
+              split at hk
+              · rename_i hden
+                cases hxa : a.qval with
+                | none => simp [hxa] at hk
+                | some x =>
+                  simp only [hxa, Option.bind_some] at hk
+                  split at hk
+                  · cases hk
+                  · simp only [Option.some.injEq] at hk
+                    subst hk
+                    have hb : b = (x : F) := h2 x hxa
+                    simp only [powR, hden, if_true] at hp
+                    split at hp
+                    · cases hp
+                    · simp only [Option.some.injEq] at hp
+                      subst hp
+                      simp only [hb, powInt_eq]
+                      push_cast
+                      rfl
+              · cases hk
+          · cases hr'
+      · cases hr
+  num := by
+    intro m e r r' hr hr'
+    simp only [qdimAlg, trackAlgR, Option.some.injEq] at hr hr'
+    subst hr; subst hr'
+    exact ⟨rfl, fun n hn => by simp only [Option.some.injEq] at hn; subst hn; exact (litVal_cast m e).symm⟩
+
+theorem env_qdim_rel (tab : List UnitEntry) (n : List Char) :
+    Lift.both.rel (QDimSound (F := F)) (envQDim tab n) (envTrackedQ tab n) := by
+  intro r r' hr hr'
+  simp only [envQDim, envTrackedQ] at hr hr'
+  cases hl : lookup tab n with
+  | none => simp [hl] at hr
+  | some e =>
+    simp only [hl, Option.map_some, Option.some.injEq] at hr hr'
+    subst hr; subst hr'
+    exact ⟨rfl, by intro n hn; simp at hn⟩
+
+/-- the kernel-decidable dimension analysis with rational exponents (`m^(3/2)`, `m^0.5*m^0.5`) predicts the
+    dimension of the tracked numeric evaluation, for every string. -/
+theorem dim_analysis_sound_rpow (toRat? : F → Option Rat) (hR : ∀ x q, toRat? x = some q → x = (q : F))
+    (tab : List UnitEntry) (s : List Char) (dv : QDimVal) (v : F) (d : Q5)
+    (h1 : parse qdimAlg (envQDim tab) s = some dv)
+    (h2 : parse (trackAlgR toRat? rpow) (envTrackedQ tab) s = some (v, d)) : d = dv.dim :=
+  ((parse_rel (L := Lift.both) (qdim_track_rel (rpow := rpow) toRat? hR) (env_qdim_rel tab) s) dv (v, d) h1 h2).1.symm
+
+/-- integer tracking is rational tracking: same value, the dimension cast. -/
+theorem trackAlgR_extends (toInt? : F → Option Int) (toRat? : F → Option Rat)
+    (hc : ∀ x n, toInt? x = some n → toRat? x = some (n : Rat)) :
+    AlgRel Lift.fwd (fun (a : F × D5) (b : F × Q5) => b = (a.1, a.2.toQ)) (trackAlg toInt?) (trackAlgR toRat? rpow) where
+  mul := by
+    rintro ⟨a, da⟩ ⟨a', da'⟩ _ _ rfl rfl r hr
+    simp only [trackAlg, Option.some.injEq] at hr
+    subst hr
+    exact ⟨_, rfl, by simp [Q5.add, D5.add, D5.toQ]⟩
+  div := by
+    rintro ⟨a, da⟩ ⟨a', da'⟩ _ _ rfl rfl r hr
+    simp only [trackAlg] at hr
+    split at hr
+    · cases hr
+    · rename_i hne
+      simp only [Option.some.injEq] at hr
+      subst hr
+      refine ⟨(a / a', Q5.sub da.toQ da'.toQ), by simp only [trackAlgR, hne, if_false], ?_⟩
+      simp [Q5.sub, D5.sub, D5.toQ]
+  pow := by
+    rintro ⟨a, da⟩ ⟨a', da'⟩ _ _ rfl rfl r hr
+    simp only [trackAlg] at hr
+    cases hn : toInt? a' with
+    | none => simp [hn] at hr
+    | some n =>
+      simp only [hn] at hr
+      split at hr
+      · rename_i hz
+        split at hr
+        · cases hr
+        · rename_i hne
+          simp only [Option.some.injEq] at hr
+          subst hr
+          have hz' : da'.toQ = Q5.zero := by rw [hz]; simp [D5.toQ, D5.zero, Q5.zero]
+          refine ⟨_, ?_, rfl⟩
+          simp only [trackAlgR, hc _ _ hn, hz', if_true, powR_intCast, if_neg hne, Option.map_some]
+          simp [Q5.smul, D5.smul, D5.toQ]
+      · cases hr
+  num := by
+    intro m e r hr
+    simp only [trackAlg, Option.some.injEq] at hr
+    subst hr
+    exact ⟨_, rfl, by simp [D5.toQ, D5.zero, Q5.zero]⟩
+
+theorem track_rpow_extends (toInt? : F → Option Int) (toRat? : F → Option Rat)
+    (hc : ∀ x n, toInt? x = some n → toRat? x = some (n : Rat)) (tab : List UnitEntry) (s : List Char) (v : F) (d : D5)
+    (h : parse (trackAlg toInt?) (envTracked tab) s = some (v, d)) :
+    parse (trackAlgR toRat? rpow) (envTrackedQ tab) s = some (v, d.toQ) := by
+  obtain ⟨w, hw, hr⟩ := parse_rel (L := Lift.fwd) (trackAlgR_extends (rpow := rpow) toInt? toRat? hc)
+    (env1 := envTracked tab) (env2 := envTrackedQ tab)
+    (fun n r hr => by
+      simp only [envTracked, envTrackedQ] at hr ⊢
+      cases hl : lookup tab n with
+      | none => simp [hl] at hr
+      | some e =>
+        simp only [hl, Option.map_some, Option.some.injEq] at hr ⊢
+        subst hr
+        exact ⟨_, rfl, rfl⟩) s (v, d) h
+  rw [hw, hr]
+
+
+/-! #### sessions with rational exponents -/
+
+/-- **working-unit independence across sessions, rational exponents**: the same conversion between two expressions of
+    equal (rational) dimension, asked at the end of any history that leaves positive scalings, is `x · v1 / v2`. -/
+theorem session_conversion_invariant_rpow (toRat? : F → Option Rat) (L : RpowLaws rpow) (tab : List UnitEntry)
+    (s1 s2 : List Char) (v1 v2 : F) (d : Q5)
+    (h1 : parse (trackAlgR toRat? rpow) (envTrackedQ tab) s1 = some (v1, d))
+    (h2 : parse (trackAlgR toRat? rpow) (envTrackedQ tab) s2 = some (v2, d)) (hv2 : v2 ≠ 0)
+    (hs1 : s1 ≠ ['s', 'c', 'a', 'l', 'e', 'd']) (hs2 : s2 ≠ ['s', 'c', 'a', 'l', 'e', 'd'])
+    (sc0 : Scales F) (h : List (Call F)) (hn : (finalScales tab sc0 h).Pos) (x : List F) :
+    (Call.convert x (some s1) (some s2)).reply (numAlgR toRat? rpow) tab (finalScales tab sc0 h)
+      = some (x.map fun t => t * v1 / v2) := by
+  obtain ⟨f1, f2, e1, e2, hf2, hx⟩ := same_dim_ratio_invariant_rpow toRat? L tab s1 s2 v1 v2 d h1 h2 hv2 _ hn x
+  simp only [Call.reply, parseUnits, if_neg hs1, if_neg hs2, e1, e2, if_neg hf2, hx]
+
+/-- chosen units are one in any session, read through the rational-exponent algebra. -/
+theorem session_chosen_units_one_rpow (toRat? : F → Option Rat) (tab : List UnitEntry) (htab : tableOK tab = true)
+    (ch : Choice) (hcount : ch.count ≤ 4) (hover : ch.overDetermined = false) (hch : ChoiceOK tab ch)
+    (r : F) (hr : ∀ x, radicand (envSI (K := F) tab) ch = some x → r * r = x)
+    (sc0 : Scales F) (h reads : List (Call F)) (hreads : ∀ c ∈ reads, c.isRead = true)
+    (k : Kind) (n : List Char) (hk : ch.get k = some n) (hv : validName n) :
+    (Call.unit n).reply (numAlgR toRat? rpow) tab (finalScales tab sc0 (h ++ Call.reset ch r :: reads)) = some [1]
+    ∧ (Call.parse (some n)).reply (numAlgR toRat? rpow) tab (finalScales tab sc0 (h ++ Call.reset ch r :: reads)) = some [1] := by
+  obtain ⟨sc, h1, _, h3⟩ := reset_named_units_are_one tab htab ch hcount hover hch r hr
+  rw [session_state_after_reset tab sc0 h ch r sc hcount h1 reads hreads]
+  refine ⟨by simp only [Call.reply, h3 k n hk, Option.map_some], ?_⟩
+  simp only [Call.reply, parseUnits]
+  split
+  · simp [numAlgR, litVal, powInt, powNat]
+  · rw [parse_name _ _ n hv, h3 k n hk]; rfl
+
+end rpow
+
 /-! ### non-vacuity: the hypotheses of the theorems above are satisfiable on the generated tables -/
 
 /-- decidable form of `validName`. -/
@@ -742,6 +1155,32 @@ example : finalScales unitTable (⟨3, 1 / 7, 11, 5 / 2, 1⟩ : Scales Rat) [.re
     = siScales := by decide +kernel
 example : finalScales unitTable (⟨3, 1 / 7, 11, 5 / 2, 1⟩ : Scales Rat)
       [.reset ⟨some ['m'], some ['k', 'g'], some ['s'], some ['J'], some ['C']⟩ 0] = ⟨3, 1 / 7, 11, 5 / 2, 1⟩ := by
+  decide +kernel
+
+-- hypotheses of the `_rpow` theorems: the three laws hold for the real power function; positive scalings exist;
+-- expressions with non-integer exponents have a tracked value and a rational dimension
+noncomputable example : RpowLaws (fun (x : ℝ) (q : Rat) => x ^ (q : ℝ)) where
+  add x hx a b := by simp only [Rat.cast_add]; exact Real.rpow_add hx _ _
+  mul x y hx hy a := Real.mul_rpow hx.le hy.le
+  one x hx := by simp
+example : (⟨3, 1 / 7, 11, 5 / 2, 1⟩ : Scales Rat).Pos := by
+  refine ⟨?_, ?_, ?_, ?_, ?_⟩ <;> norm_num
+example : (parse qdimAlg (envQDim unitTable) "MPa*m^(3/2)".toList).map (·.dim) = some ⟨1 / 2, 1, -2, 0, 0⟩ := by
+  decide +kernel
+example : (parse qdimAlg (envQDim unitTable) " GPa * nm ^ 1.5 ".toList).map (·.dim) = some ⟨1 / 2, 1, -2, 0, 0⟩ := by
+  decide +kernel
+example : (parse qdimAlg (envQDim unitTable) "s^-1.5*s^(1/2)".toList).map (·.dim) = some ⟨0, 0, -1, 0, 0⟩ := by
+  decide +kernel
+example : (parse (trackAlgR (fun q : Rat => some q) (fun x _ => x)) (envTrackedQ unitTable) "m^0.5/m^-.5".toList).map (·.2)
+    = some ⟨1, 0, 0, 0, 0⟩ := by decide +kernel
+-- an integer-valued exponent never reaches `rpow`; a negative base with a non-integer exponent has no value
+example : parse (numAlgR (fun q : Rat => some q) (fun _ _ => 0)) (envSI (K := Rat) unitTable) "2^(6/2)".toList = some 8 := by
+  decide +kernel
+example : parse (numAlgR (fun q : Rat => some q) (fun x _ => x)) (envSI (K := Rat) unitTable) "-2^0.5".toList = none := by
+  decide +kernel
+example : parse (numAlgR (fun q : Rat => some q) (fun x _ => x)) (envSI (K := Rat) unitTable) "0^0.5".toList = some 0 := by
+  decide +kernel
+example : parse (numAlgR (fun q : Rat => some q) (fun x _ => x)) (envSI (K := Rat) unitTable) "0^-0.5".toList = none := by
   decide +kernel
 
 end Atomman.C09
